@@ -240,7 +240,22 @@ func c19Fetch(c *Ctx) {
 	// cut — an edge of the lookup itself, or the passing edge of a helper that succeeds only through such an edge
 	mtCut := c19GateCut(w, G, map[string]bool{eqI: true, eqA: true}, c19Same, 0)
 	wit := gi.successWitness(m, entryState(), mtCut)
-	c.slot(wit == nil, len(mtCut), "lookup/media-type", "the signature manifest descriptor's media type is the image manifest or the artifact manifest type", w.FnPos(G), "success without either media type", wit...)
+	nMT := len(mtCut)
+	if wit != nil {
+		// ... or the same clause decided one level up, on FetchSignatureBlob itself (the lookup is its helper: a test
+		// the lookup used to make may stand in front of the call instead): FetchSignatureBlob cannot succeed once its
+		// own edges that imply "the requested descriptor's media type is one of the two" are cut, together with the
+		// passing edges of the helpers (the lookup among them, its parameter read as the argument) that succeed only
+		// through such an edge. What the clause protects is the exported operation; it holds whichever of the two
+		// functions makes the test.
+		fP := "param:" + F.Params[2].Name()
+		fCut := c19GateCut(w, F, map[string]bool{fmt.Sprintf("EQ(%s.MediaType,const:%q)", fP, im): true, fmt.Sprintf("EQ(%s.MediaType,const:%q)", fP, am): true}, c19Same, 0)
+		if len(fCut) > 0 {
+			nMT += len(fCut)
+			wit = w.Info(F).successWitness(m, entryState(), fCut)
+		}
+	}
+	c.slot(wit == nil, nMT, "lookup/media-type", "the signature manifest descriptor's media type is the image manifest or the artifact manifest type", w.FnPos(G), "success without either media type", wit...)
 	var mf *ssa.Call
 	for _, fs := range c19FetchSites(w, G) {
 		if desc(fs.D) == P {
@@ -262,7 +277,10 @@ func c19Fetch(c *Ctx) {
 	okOne := len(gs.Exits) > 0
 	detail := ""
 	for _, e := range gs.Exits {
-		r := e.Ret.Results[0]
+		// the returned value itself, or a local it was parked in (`d := list[0]; …; return d`: a variable written once
+		// as a whole and never through a field holds, when it is returned, what was stored — loadOrigin)
+		// (c19ExitResult: with a single return statement fed by result variables, the value this exit came in with)
+		r := loadOrigin(c19ExitResult(e, 0))
 		var list ssa.Value
 		switch x := r.(type) {
 		case *ssa.UnOp:
@@ -541,7 +559,7 @@ func c19Referrers(c *Ctx, SR *ssa.Function) {
 		// The frames an element of this media type runs through: this function's loop body and the module functions it
 		// must have come through successfully (c19Frame). Each fact below is looked for in every frame; a rendering of
 		// a helper's frame is read with the helper's parameters replaced by the call's arguments.
-		root := &c19Frame{fn: SR, fi: fi, tr: c19Same, cut: cutM, labels: labels, flow: flow}
+		root := &c19Frame{fn: SR, fi: fi, tr: c19Same, cut: cutM, labels: labels, flow: flow, w: w}
 		flow.frame = root
 		contra := map[string]bool{}
 		for l := range mtFact("NE", br.mt) {
@@ -632,7 +650,7 @@ func c19Referrers(c *Ctx, SR *ssa.Function) {
 		// predicate, whose three must-pass facts the engine hands up in this frame. The decoded subject is `X.Subject`
 		// where X lives, and whatever the frames above see of it (c19Spellings): a test on `info.subject` with info the
 		// record a helper built from X is a test on X.Subject.
-		subj := c19Spellings(FU, lb, X, ".Subject")
+		subj := c19Spellings(root, lb, X, ".Subject")
 		subj[xd+".Subject"] = true
 		nn, eq := false, false
 		for sd := range subj {
@@ -661,6 +679,27 @@ func c19Referrers(c *Ctx, SR *ssa.Function) {
 			ls, ok := flow.resolve(V, ats[i], 0)
 			seen = append(seen, c19Keys(ls))
 			if ok && okElem && c19SetEq(ls, elemAT) {
+				okTest = true
+			}
+		}
+		// ... or the test stands in a helper frame (a predicate `keep(info, desc)` whose answer is must-pass, a helper
+		// that refuses other types with an error): the tests that together every success of the helper passes
+		// (c19HelperConstTests), each on a value that — followed through the helper's parameters to the arguments of
+		// the call — is what the listed descriptor carries
+		for _, fr := range frames[1:] {
+			hv, hat, hok := c19HelperConstTests(fr, nt)
+			if !hok {
+				continue
+			}
+			all := true
+			for i, V := range hv {
+				ls, ok := fr.flow.resolve(V, hat[i], 0)
+				seen = append(seen, c19Keys(ls))
+				if !(ok && okElem && c19SetEq(ls, elemAT)) {
+					all = false
+				}
+			}
+			if all {
 				okTest = true
 			}
 		}
